@@ -290,6 +290,7 @@ def check(chk):
         w = cfg.must_pass(n.id, [x.id for x in rp]) if not any(cfg.dominates(x.id, n.id) for x in rp) else None
         chk.ob("FLAG-3", "Timer.start cancels a pending timed pause", bool(rp) and w is None, f.where(c), construct=f.ident,
                text="start removes pause")
+    _tick_arithmetic(chk, tm)
     # whoever (re)creates the periodic tick leaves it armed: no removal of the system timer after the creation on any path
     for name in ("start", "jump", "set_tick_interval", "change_tick_interval", "restart"):
         f2 = tm.methods.get(name)
@@ -531,6 +532,50 @@ def _is_grid_advance(stmt):
     return isinstance(v, ast.BinOp) and isinstance(v.op, ast.Add) and {src(v.left), src(v.right)} == {"self._last_call", "self._interval"}
 
 
+def _tick_arithmetic(chk, tm):
+    """TICK-1: the count of a timer device moves by exactly one per tick in its direction, by the given amount on add / subtract
+    (relative to the current count, never overwritten by the amount), and is set absolutely only by jump / load (clamped to max_value)."""
+    allowed = {"None": "initial", "self.start_value": "load", "self.max_value": "clamp", "new_value": "add"}
+    n = 0
+    for m in tm.methods.values():
+        cfg = None
+        for x in walk_local(m.node):
+            tgt = None
+            if isinstance(x, ast.Assign) and any(src(t) == "self.ticks" for t in x.targets):
+                tgt = ("=", src(x.value))
+            elif isinstance(x, ast.AugAssign) and src(x.target) == "self.ticks":
+                tgt = (type(x.op).__name__, src(x.value))
+            if tgt is None:
+                continue
+            n += 1
+            op, v = tgt
+            cfg = cfg or m.cfg()
+            node = [q for q in cfg.nodes if q.kind == "stmt" and q.ast is x]
+            g = cfg.guards_at(node[0].id) if node else {}
+            if m.name == "_timer_tick":
+                down = g.get("self.direction == 'down'")
+                ok = v == "1" and ((op == "Sub" and down is True) or (op == "Add" and down is False))
+                what = "a tick moves the count by exactly one, down for a down timer and up otherwise"
+            elif m.name == "subtract":
+                d = [a for a in walk_local(m.node) if isinstance(a, ast.Assign) and src(a.targets[0]) == v]
+                ok = op == "Sub" and len(d) == 1 and call_attr(d[0].value) == "_get_timer_value"
+                what = "subtract() lowers the count by the evaluated amount"
+            elif m.name == "add":
+                d = [a for a in walk_local(m.node) if isinstance(a, ast.Assign) and src(a.targets[0]) == "new_value"]
+                ok = op == "=" and v == "new_value" and any(src(a.value).replace(" ", "").startswith("self.ticks+") for a in d) and \
+                    all(src(a.value).replace(" ", "").startswith("self.ticks+") or src(a.value) == "self.max_value" for a in d)
+                what = "add() raises the count by the evaluated amount (clamped to max_value)"
+            elif m.name == "jump":
+                ok = op == "=" and (call_attr(x.value) == "_get_timer_value" or (v == "self.max_value" and g.get("self.ticks > self.max_value") is True))
+                what = "jump() sets the count to the evaluated value (clamped to max_value)"
+            else:
+                ok = op == "=" and v in ("None", "self.start_value")
+                what = "outside tick / add / subtract / jump the count is only initialised or loaded from the start value"
+            chk.ob("TICK-1", "%s (Timer.%s)" % (what, m.name), ok, m.where(x), detail="self.ticks %s %s under %s" % (op, v, sorted(k for k, val in g.items() if val is True)[:3]),
+                   construct=m.ident, text="ticks store %s %s in %s" % (op, v, m.name))
+    chk.ob("TICK-1", "stores to the timer count examined (%d)" % n, n >= 8, tm.methods["_timer_tick"].where(), nontrivial=False)
+
+
 def battery():
     from sa.battery import M
     return [
@@ -574,6 +619,9 @@ def battery():
         M("add returns nothing", DL, "            ms / 1000.0), partial(callback, **kwargs))\n\n        return name", "            ms / 1000.0), partial(callback, **kwargs))\n", "FWD-13"),
         M("pause delay unnamed", TM, "self.delay.add(name='pause', ms=pause_ms,", "self.delay.add(ms=pause_ms,", "FLAG-3"),
         M("jump() removes the tick it has just created", TM, "        self._remove_system_timer()\n        self._create_system_timer()\n\n        self._check_for_done()", "        self._create_system_timer()\n        self._remove_system_timer()\n\n        self._check_for_done()", "FLAG-3"),
+        M("a tick sets the count instead of moving it", TM, "            self.ticks -= 1\n        else:\n            self.ticks += 1", "            self.ticks -= 1\n        else:\n            self.ticks = 1", "TICK-1"),
+        M("subtract() overwrites the count", TM, "        self.ticks -= ticks_subtracted", "        self.ticks = ticks_subtracted", "TICK-1"),
+        M("tick direction inverted", TM, "        if self.direction == 'down':\n            self.ticks -= 1\n        else:\n            self.ticks += 1", "        if self.direction == 'down':\n            self.ticks += 1\n        else:\n            self.ticks -= 1", "TICK-1"),
     ]
 
 
